@@ -439,7 +439,7 @@ class SkelEval(Eval):
                 return Flags(a.ty, a.bits | b.bits)
             if t[1] == '&':
                 return Flags(a.ty, a.bits & b.bits)
-        return {'+': lambda: a + b, '-': lambda: a - b, '*': lambda: a * b, '|': lambda: a | b}[t[1]]()
+        return {'+': lambda: a + b, '-': lambda: a - b, '*': lambda: a * b, '|': lambda: a | b, '&': lambda: a & b, '^': lambda: a ^ b}[t[1]]()
 
     def ev_reccall(self, t):
         q, args = t[1], t[2]
